@@ -29,6 +29,7 @@ BINARIES = {
     "c10": ("zzverif/cmd/c10", True),
     "c10nr": ("zzverif/cmd/c10", False),  # the same harness without the race detector (sequential spaces: cache.aging)
     "prod": ("zzverif/cmd/prod", False),
+    "prod2": ("zzverif/cmd/prod", False),  # the same harness with the producer package under the scheduler (prod.two)
     "pipe": ("vflow", True),
     "pipe15": ("vflow", True),
 }
@@ -38,6 +39,7 @@ BINARIES = {
 INSTRUMENT = {
     # the producer dials through the harness's name service (a sink that moves to another address keeps its name)
     "prod": [("producer", ["rawSocket.go"], "SEAMS")],
+    "prod2": [("producer", ["rawSocket.go", "producer.go"], None)],
     "c10": [("ipfix", ["memcache.go"], None), ("netflow/v9", ["memcache.go"], None)],
     # sequential use: only the environment seams (clock), no scheduling points - channel operations keep their real semantics
     "c10nr": [("ipfix", ["memcache.go", "decoder.go"], "SEAMS"), ("netflow/v9", ["memcache.go", "decoder.go"], "SEAMS")],
@@ -850,6 +852,9 @@ def c14(tier):
     d, env = sched_env("c14")
     env.pop("GORACE", None)
     res = [run_space(b, "prod.tcp", tier, env=env, hang_s=90), run_space(b, "prod.udp", tier, env=env, hang_s=90), run_space(b, "prod.burst", tier, env=env, hang_s=90), run_space(b, "prod.stall", tier, env=env, hang_s=120), run_space(b, "prod.move", tier, env=env, hang_s=90)]
+    env2 = dict(env)
+    env2["VERIF_SCHED"] = "1"
+    res.append(run_space(build("prod2"), "prod.two", tier, env=env2, hang_s=120))
     import shutil
     shutil.rmtree(d, ignore_errors=True)
     return finish("C14", tier, res,
@@ -859,7 +864,8 @@ def c14(tier):
                        "prod.burst: buffered channel as in the collector, bursts of 1..3 messages while the sink is up / while it is away (listener down + RST) / after it is back x retry-max 0/1/2 x plain and shared-buffer messages; state barrier 'queue empty and producer parked in its receive' between the phases; what the sink got must be an in-order, duplicate-free, byte-identical subsequence containing the whole first burst, and the producer must come to rest. "
                        "prod.stall: the sink stays connected but stops reading while 24 MiB are in flight, the producer blocks in its write (state barrier: its goroutine is in 'IO wait') for 6 s (thorough 35 s) of real time, then the sink reads on: every message arrives once, whole, in order (a blocked write is not a failed one). "
                        "prod.move: the sink is configured by NAME (resolved by the harness's name service behind net.Dial); it goes away and comes back under the same name and port on ANOTHER address (fail-over); retry-max 0/1/2 x 2..4 messages before the move: delivery must resume (the last message arrives) and what arrives is an in-order, duplicate-free subsequence. "
-                       "prod.udp: udp configuration, sink up/down per message (all 32 masks) x retry-max x message sets; every datagram is exactly the next message + newline. states = fault sequences executed, transitions = messages handed over.",
+                       "prod.udp: udp configuration, sink up/down per message (all 32 masks) x retry-max x message sets, messages handed over one at a time or all queued before the producer starts; every datagram is exactly the next message + newline. "
+                       "prod.two (the producer package under the controlled scheduler): TWO rawSocket producers in one process, as the collector runs one per protocol, each with its own virtual sink and a burst waiting in its queue; every interleaving (scheduling points at queue operations and before every write enters the kernel); each sink must receive exactly its own producer's messages. states = fault sequences executed, transitions = messages handed over.",
                   assumptions=["the environment is the real Linux loopback TCP/UDP stack, not a model: every explored fault sequence is a real kernel trace",
                                "only producer.go + rawSocket.go are decided; the Kafka (sarama, segmentio), NSQ and NATS drivers need a broker and cannot be exercised offline",
                                "a write the kernel accepted on a connection the peer has already closed is lost silently (TCP semantics): the statement allows a bounded gap, so loss is bounded, not excluded",
